@@ -11,8 +11,9 @@ PROPS = {
                     "strconv.ParseFloat / ParseInt as the reference for literals in the harness"],
         "assumptions": ["the relational precedence-climbing parser PExpr stands for the generated parser on operator expressions: both rebuild the intended tree from the "
                         "same token strings (checked on every generated tree, min and full spelling)"],
-        "partial": ["the round-trip theorems cover trees of binary operators (all 19, incl. ?? and in) with atoms; prefix operators, ?: and postfix forms are covered by the "
-                    "metamorphic stream only", "float literals: differential against strconv only",
+        "partial": ["the round-trip, determinism and injectivity theorems are about the precedence-climbing reading of the regenerated table (binary and prefix operators, "
+                    "?:, call / index / slice / member forms, any depth); that the generated LALR parser reads the same tree is decided by the metamorphic stream "
+                    "(same printer, token for token)", "float literals: differential against strconv only",
                     "string-literal unescaping: differential only"],
     },
     "C01": {
@@ -57,7 +58,7 @@ PROPS = {
     "C16": {
         "gens": ["ChanOps"],
         "lean": "Anko.Props.C16",
-        "streams": [{"name": "chan", "n_quick": 400, "n_thorough": 6000}],
+        "streams": [{"name": "chan", "n_quick": 1200, "n_thorough": 12000}],
         "trusted": ["Go's channel implementation and scheduler realise the FIFO-buffer specification of lean/Anko/Model/Chan.lean (capacity, closed flag, rendezvous for capacity 0)",
                     "the interpreter performs each channel operation as one reflect.Select / Close on the Go channel (the single-goroutine histories compare every result)"],
         "assumptions": ["pipeline stages are the goroutines `for x in in { out <- f(x) }; close(out)`, producer `for v in items { c <- v }; close(c)`, consumer collecting by for-in",
@@ -170,7 +171,7 @@ PROPS = {
         "assumptions": ["fragment F0; map iteration order is not modelled (for-in over maps with more than one entry is not generated)"],
         "partial": ["return_ends_invocation and signal propagation are proved for paths without `try` (finding #13: try catches ErrBreak/ErrContinue/ErrReturn, "
                     "pinned by the repository's TestTry; witness theorem try_catches_return_witness)",
-                    "cfor_consumes_break_continue is stated for loops without an init statement"],
+                    "cfor_consumes_break_continue: without init, with a var / assignment init (the forms the grammar admits) and with any init that does not itself signal"],
     },
     "C04": {
         "gens": [],
@@ -182,7 +183,7 @@ PROPS = {
                     "Go stubs bound by the harness = goSig/goRun of the model"],
         "assumptions": ["fragment F0: no element assignment, typed containers, pointers, channels, goroutines (such programs are answered `unsupported` and not compared)",
                         "model fuel: running out of fuel is `unsupported`, never a wrong answer"],
-        "partial": ["fresh_scope_per_call is stated for the allocation step (newScope_fresh); 'ids never reused / parent links never change' along whole runs is not yet a global theorem"],
+        "partial": ["fresh_scope_per_call is stated for the allocation step (newScope_fresh); along whole runs parent_links_never_change / scope_ids_never_reused / closures_are_immutable (Proofs/EvalMono) are the global theorems"],
     },
     "C19": {
         "gens": ["Packages"],
@@ -237,13 +238,14 @@ MANIFEST_TEXT = {
         "text": "Machine-checked proofs (Lean 4): the precedence table REGENERATED from parser.go.y is the one the property states (decide), every "
                 "binary production stores $1/$3 in LHS/RHS with the operator it was spelled with, and - for ANY table with one associativity "
                 "per level, hence for the regenerated one - the precedence-climbing parser reads the minimally parenthesised spelling of "
-                "every binary-operator tree (unbounded depth) back to exactly that tree, and the fully parenthesised spelling to the same "
-                "tree; decimal integer numerals below 2^63 denote exactly their value and larger ones are rejected (induction on the "
+                "every expression tree (binary and prefix operators, c ? a : b, call / index / slice / member forms, unbounded depth) back to "
+                "exactly that tree and the fully parenthesised spelling to the same tree; the parser is a function (a token list has at most "
+                "one reading), so different trees never share a spelling; decimal integer numerals below 2^63 denote exactly their value and larger ones are rejected (induction on the "
                 "numeral). Correspondence/oracle: thousands of trees incl. unary, ?:, postfix forms in 7 statement positions, spelled both "
                 "ways, must be rebuilt exactly by the real parser; the Lean printer is compared token for token with the harness printer; "
                 "hex/binary/decimal literals through the Lean toNumber model; floats and strings against strconv / the escape rules.",
         "note": "Trusted: Lean kernel; goyacc (LALR tables not modelled); the grammar extractor (regex over parser.go.y, closed shapes). Follows fix a4e6d85 (-0b literals).",
-        "technique": "Lean 4 proof (precedence-climbing round trip by induction on trees; decide over regenerated table) + metamorphic parser correspondence",
+        "technique": "Lean 4 proof (precedence-climbing round trip by induction on trees, determinism by induction on derivations; decide over regenerated table) + metamorphic parser correspondence",
         "design_ref": "DESIGN.md section 6 (C03)",
     },
     "C01": {
